@@ -23,6 +23,12 @@ CHECKS = {
              "Trusted: the 30-line map model. Bounded history length (40) and a 5-tuple universe; sampling.",
              q={"checks": 3000, "shards": 1, "timeout": 300},
              t={"checks": 25000, "shards": 16, "timeout": 1500}),
+    "C10": P("pure", "TestC10",
+             "rapid generated stores + one Gc(); two-sided validity predicate (brute force over tie-breaks)",
+             "Generated stores (limits, clustered timestamps, expiry marks, late updates) get one GC pass; a predicate accepts exactly the outcomes the statement allows (remove n-N oldest, any tie-break; then the expired; nothing else changes) and rejects everything else.",
+             "Trusted: the predicate; GC instant bracketed by wall-clock reads, ages kept >= 10 s from expiry boundaries. API-built stores (compiled limit/del-after declarations are covered by the language checks).",
+             q={"checks": 4000, "shards": 1, "timeout": 300},
+             t={"checks": 30000, "shards": 16, "timeout": 1500}),
     "C15": P("pure", "TestC15",
              "exhaustive small-scope enumeration + rapid random streams/chunkings vs reference splitter",
              "Every byte stream up to length 5 (quick) / 7 (thorough) over {LF, CR, 'a', 0xe4} under every composition into reads and buffer sizes 1,2,3,64 is compared with a reference splitter; plus random streams to 70 KB with random chunking incl. zero-length reads. Exploration with an exhaustive small scope.",
